@@ -9,7 +9,7 @@
    correspondence of the pipeline model with the implementation plus the oracle run of tools/c03.py. *)
 From Coq Require Import String NArith List Bool.
 From RC Require Import lib.Result lib.Bytes model.Layout model.ChkIo model.RichCodec model.RichIo
-  proofs.C03_proofs proofs.C10_proofs proofs.C03_refuted.
+  proofs.C03_proofs proofs.C10_proofs proofs.C03_refuted proofs.C08_proofs proofs.C03_strings model.Str model.StrEditor.
 Import ListNotations.
 Local Open Scope N_scope.
 
@@ -58,3 +58,15 @@ Proof.
   specialize (H bs b1 H1). rewrite H in H2. inversion H2. contradiction.
 Qed.
 Print Assumptions C03_full_statement_is_false.
+
+(* THE STRING TABLE OF AN UNEDITED MAP.  Everything decode_chk puts into the rich map mentions only texts the map's own
+   string table resolves (induction over sections, triggers, entries, arguments); so the rebuild before a save has nothing
+   to add, and the STR section is emitted exactly as it was loaded, at its position: every string number keeps its text. *)
+Theorem C03_unedited_save_emits_the_loaded_string_table :
+  forall d r wd d' m bin i,
+    load d = Ok r -> strs_named "STR " d = [m] ->
+    filter (named "STR ") r = [RDecodedStr "STR " 2 m] -> wf_table 2 m bin ->
+    save wd r = Ok d' -> nth_error d i = Some (DStr "STR " 2 m) ->
+    nth_error d' i = Some (DStr "STR " 2 m).
+Proof. exact unedited_save_emits_the_loaded_str. Qed.
+Print Assumptions C03_unedited_save_emits_the_loaded_string_table.
